@@ -2396,6 +2396,17 @@ pub fn compile<I: BufRead, O: Write>(
         let mut s = i.splitn(2, '=');
         let def = s.next().unwrap();
         let value = s.next().unwrap_or("1");
+        // The name is spliced into a regular expression: only identifiers can be macro names
+        let mut chars = def.chars();
+        let is_identifier = chars
+            .next()
+            .is_some_and(|c| c.is_ascii_alphabetic() || c == '_')
+            && chars.all(|c| c.is_ascii_alphanumeric() || c == '_');
+        if !is_identifier {
+            return Err(Error::Configuration {
+                error: format!("Invalid macro name '{}' in -D option", def),
+            });
+        }
         context.define(def, value);
     }
 
